@@ -11,7 +11,8 @@
     side test) generic over the scalar type: run at `Float` by the driver, reasoned about over
     any commutative ring / field in `Props/C18.lean`.  `repaired = false` is the code as found in
     the snapshot (angle between the 3-D chords), `repaired = true` is the algorithm after
-    `fixes/C18-tangent-angle.patch` (angle between the tangent-plane parts, clamped on both sides).
+    `fixes/C18-tangent-angle.patch` (= /repo commit c1960934: angle between the tangent-plane
+    parts, cosine clamped on both sides).
   * `Spec` pieces                : `CountOK`, `RowsOK` (discrete), `ringDefects` (discrete,
     C03's incidence tables), `ccwSorted` (polynomial sign tests on the coordinates, no `arccos`).
 -/
